@@ -187,6 +187,14 @@ def inspect_frame(frame: FrameType) -> FrameDetails:
 
             # Figure out what portion of the stack is actually valid
             stacktop_copy = iframe_raw.stacktop
+            frame_owner = iframe_raw.owner  # one of the FRAME_OWNED_BY_* constants
+            # Make sure those belong to the instruction position we think
+            # they do: if the frame had moved elsewhere when we read them and
+            # came back to lasti_before by the time of the checks below, we
+            # would otherwise pair this position with another one's stack depth.
+            # (No call, and thus no chance of a thread switch, occurs between
+            # the reads above and this check.)
+            assert frame.f_lasti == lasti_before
             if stacktop_copy == -1:
                 # Frames that are currently executing have stacktop == -1.
                 # Trim the stack at the depth it would be popped to before
@@ -196,8 +204,6 @@ def inspect_frame(frame: FrameType) -> FrameDetails:
             else:
                 stack_top_offset = localsplus_offset + wordsize * stacktop_copy
                 assert stack_start_offset <= stack_top_offset <= end_offset
-
-            frame_owner = iframe_raw.owner  # one of the FRAME_OWNED_BY_* constants
 
             stack_len = (stack_top_offset - stack_start_offset) // wordsize
             stack_ptr = (ctypes.py_object * stack_len).from_address(
